@@ -183,6 +183,44 @@ def run_case(case):
             if model.canon(got) != model.canon(want.rows):
                 out["violations"].append({"kind": "subprogram_rows_differ", "detail": f"{model.show(sub)} tree {short(subrel)} got {short(model.canon(got), 250)} want {short(model.canon(want.rows), 250)}"})
                 break
+        # operation relations replayed on a different operand (reapply is the public way to rebuild
+        # a node over another target): the result's declared columns / bounds must describe what it
+        # yields, and its rows must be those of the operation applied to the new operand
+        if engine == "it":
+            nre = 0
+            for sub, x in b.nodes:
+                if nre >= 3 or not isinstance(x, R.UnaryOperationRelation) or sub[0] not in ("sel", "sort", "slice", "dedup", "calc", "proj") or not x.target.columns:
+                    continue
+                have = {t.qualified_name for t in x.columns} | {t.qualified_name for t in x.target.columns}
+                free = [t for t in "efg" if t not in have]
+                if not free:
+                    continue
+                src = sorted(t.qualified_name for t in x.target.columns)[0]
+                yprog = ["calc", sub[1], free[0], ["add", ["ref", src], ["lit", 1]], None]
+                rprog = [sub[0], yprog] + list(sub[2:])
+                try:
+                    want_r = m.eval(rprog)
+                    y = b.build(yprog)
+                    if y.target is not x.target:
+                        continue  # the program node was merged / elided: x does not sit on sub[1]'s relation
+                    r = x.reapply(y)
+                except (model.Skip, model.ModelError, BuildFailure, R.RelationalAlgebraError):
+                    continue
+                except Exception as exc:  # noqa: BLE001
+                    out["violations"].append({"kind": "reapply_raised", "detail": f"{model.show(sub)} reapplied to {model.show(yprog)}: {exc_str(exc)}"})
+                    continue
+                nre += 1
+                try:
+                    rows_r = list(r.engine.execute(r))
+                except Exception as exc:  # noqa: BLE001
+                    out["violations"].append({"kind": "node_not_executable", "detail": f"{model.show(rprog)} (built by reapply): {short(r)}: {exc_str(exc)}"})
+                    continue
+                c["reapplied_nodes_checked"] = c.get("reapplied_nodes_checked", 0) + 1
+                check_node(r, rows_r, out, model.show(rprog) + " (built by reapply)")
+                if set(t.qualified_name for t in r.columns) != set(want_r.cols):
+                    out["violations"].append({"kind": "reapplied_columns_differ", "detail": f"{model.show(rprog)} (built by reapply): declares {sorted(map(str, r.columns))}, model {sorted(want_r.cols)}"})
+                elif model.canon(names_rows(rows_r)) != model.canon(want_r.rows):
+                    out["violations"].append({"kind": "reapplied_rows_differ", "detail": f"{model.show(rprog)} (built by reapply) tree {short(r)} got {short(model.canon(names_rows(rows_r)), 250)} want {short(model.canon(want_r.rows), 250)}"})
         # relations that carry a cached payload now (materializations evaluated by the Processor)
         # keep their declared bounds whatever is built on them and executed afterwards
         if engine == "sql" and want_root is not None:
